@@ -732,14 +732,21 @@ class Blends(Unit):
     name = "blend-programs"
     rule = ("CFF2 programs rmoveto + <=2 of 25 operator forms whose operands are blended after 6 patterns (none/all in one blend/first/last/"
             "alternate/each singly) with 1..2 regions, default values optionally zero: generalizeProgram and specializeProgram (maxstack 513, "
-            "preserveTopology both ways) evaluated by the reference interpreter and by T2CharString.draw(blender) at 6 region-scalar vectors: "
+            "preserveTopology both ways) evaluated by the reference interpreter and by T2CharString.draw(blender) at 4 (quick) / 6 (thorough) region-scalar vectors: "
             "same points / same fill at every vector, stack <= 512; distinct = each (program, regions)")
     required_witnesses = ("blend operators merged by the specialiser", "blend with 2 regions", "blended operand with zero default",
                           "multi-value blend split by the generaliser")
     chunk = 1
 
+    def setup(self, tier, seed):
+        self.tier = tier
+
+    def setup_replay(self):
+        self.tier = "thorough"
+
     def bounds(self, tier, seed):
-        return {"forms": len(BLEND_FORMS), "patterns": list(BLEND_PATTERNS), "regions": [1, 2], "scalars": [list(s) for s in SCALARS]}
+        return {"forms": len(BLEND_FORMS), "patterns": list(BLEND_PATTERNS), "regions": [1, 2],
+                "scalars": [list(s) for s in (SCALARS if tier == "thorough" else SCALARS[:4])]}
 
     def cases(self, tier, seed):
         yield [None, seed]
@@ -800,7 +807,7 @@ class Blends(Unit):
             if t == "blend" and G[j - 2 - regions] == 0:
                 rec.witness("blended operand with zero default")
                 break
-        for sc in SCALARS:
+        for sc in (SCALARS if self.tier == "thorough" else SCALARS[:4]):
             sc = sc[:regions]
             scal = lambda vsindex, sc=sc: sc
             blender = lambda vsindex, deltas, sc=sc: sum(dv * s for dv, s in zip(deltas, sc))
@@ -1111,7 +1118,7 @@ class FontTransforms(Unit):
                 buf = io.BytesIO()
                 font.save(buf)
                 font = corpus.open_font(buf.getvalue(), recalcBBoxes=False, recalcTimestamp=False)
-                Snapshot(font, exp["tag"])
+                self.compare(rec, t, "intermediate font after step %d" % k, base, Snapshot(font, exp["tag"]), dict(exp), hm0, fname)
                 continue
             if step == "1" and base.variable:
                 try:
@@ -1252,6 +1259,7 @@ LSUBRS = (
     [10, 20, "hstemhm", 30, 40, "return"],                        # 7 stems + operands of an implied vstem
     [-33, 10, 20, "hstem", "return"],                             # 8 width operand and stems inside the subroutine
     ["hintmask", MASK3, 2, 3, "rlineto", "return"],               # 9 hintmask inside the subroutine
+    [10, 20, "hstem", 21, 23, "rmoveto", 5, "hlineto", "return"],  # 10 stems, then the subroutine goes on drawing
 )
 GSUBRS = (
     [-4, -6, "rlineto", "return"],                                # 0 path
@@ -1270,6 +1278,7 @@ SYN_HINTS = (
     ("inline+gsubr-stems+mask", [10, 20, "hstemhm"] + G(2) + ["hintmask", MASK1], 2, True),
     ("lsubr+gsubr-stems+cntrmask", L(1) + G(2) + ["cntrmask", MASK2, "hintmask", MASK1], 2, True),
     ("width-and-stem-in-lsubr", L(8), 1, False),
+    ("stem-then-path-in-lsubr", L(10), 1, False),
 )
 SYN_PATHS = (
     ("inline", [3, 4, "rlineto"]),
@@ -1347,16 +1356,17 @@ SYN_TRANSFORMS = ("desubroutinize", "remove_hints", "desubroutinize+remove_hints
 
 class SyntheticFonts(FontTransforms):
     name = "generated-subr-fonts"
-    rule = ("generated CFF fonts .notdef + 2 glyphs over 10 local / 4 global subroutines (2+1 never called): glyph = width? x 8 hint set-ups "
+    rule = ("generated CFF fonts .notdef + 2 glyphs over 11 local / 4 global subroutines (2+1 never called): glyph = width? x 9 hint set-ups "
             "(none, inline stems, stems in a local / global subroutine, operands of an implied vstem left by a subroutine, cntrmask, width operand "
-            "inside the subroutine) x 7 path set-ups (inline, local, global, nested l->l, l->g, g->g, hintmask inside a subroutine) x endchar inline / "
-            "inside a subroutine; all ordered glyph pairs in thorough, first glyph over all 56 kinds x second over 8 kinds in quick; x 9 transforms; "
+            "inside the subroutine, a subroutine that declares stems and goes on drawing) x 7 path set-ups (inline, local, global, nested l->l, l->g, g->g, hintmask inside a subroutine) x endchar inline / "
+            "inside a subroutine; all ordered glyph pairs in thorough, first glyph over all 63 kinds x second over 9 kinds in quick; x 9 transforms "
+            "(7 in quick); "
             "oracle as font-transforms; distinct = each (font, transform)")
     required_witnesses = ("subroutine calls inlined", "nested subroutine inlined", "stem hints removed", "hintmask removed", "cntrmask removed",
                           "unused subroutines dropped", "subroutine calls renumbered", "width operand dropped for CFF2",
                           "width operand re-encoded (CFF2->CFF)", "subset dropped glyphs", "global and local subroutines in one font",
                           "second glyph re-uses a hint subroutine of the first")
-    chunk = 9  # = number of transforms: one shard builds one font once
+    chunk = 7  # about the number of transforms: a shard builds its font once or twice
 
     def setup(self, tier, seed):
         import fontTools.subset  # noqa: F401
@@ -1370,7 +1380,7 @@ class SyntheticFonts(FontTransforms):
 
     def bounds(self, tier, seed):
         return {"hint_setups": [h[0] for h in SYN_HINTS], "path_setups": [p[0] for p in SYN_PATHS], "glyphs_per_font": 2,
-                "transforms": list(SYN_TRANSFORMS), "second_glyph_kinds": 8 if tier == "quick" else 56}
+                "transforms": [t for t in SYN_TRANSFORMS if tier != "quick" or t not in ("subset-other-half", "cff-to-cff2")], "second_glyph_kinds": len(SYN_HINTS) if tier == "quick" else len(SYN_HINTS) * len(SYN_PATHS)}
 
     def cases(self, tier, seed):
         kinds = [(h, p) for h in range(len(SYN_HINTS)) for p in range(len(SYN_PATHS))]
@@ -1380,6 +1390,8 @@ class SyntheticFonts(FontTransforms):
                 v1 = (h1 + p1 + seed) % 4
                 v2 = (h2 + 2 * p2 + h1 + seed) % 4
                 for t in SYN_TRANSFORMS:
+                    if tier == "quick" and t in ("subset-other-half", "cff-to-cff2"):
+                        continue  # the round trip covers cff-to-cff2; the other half is the mirror case
                     yield [[[h1, p1, v1], [h2, p2, v2]], "syn", t]
 
     def check(self, case, rec):
